@@ -240,6 +240,8 @@ class Generator:
         if not (sig and frm and to):
             raise AnchorLost("region needs sig/from/to")
         mf = list(re.finditer(r"\{", text))[:1] if frm == "^" else list(self._ws_regex(frm).finditer(text))
+        if len(mf) == 0 and frm != "^" and not opts.get("optional"):
+            mf = list(self._ws_regex_tolerant(frm).finditer(text))
         if to == "\x00block":
             mt = []
             if len(mf) == 1:
@@ -255,6 +257,8 @@ class Generator:
                         break
         else:
             mt = list(self._ws_regex(to).finditer(text))
+            if len(mt) == 0:
+                mt = list(self._ws_regex_tolerant(to).finditer(text))
         if len(mf) == 0 and opts.get("optional"):
             # the statement was introduced by a repair; on a tree without it the contracts of the code that would
             # have used it decide (the rewrites that direct calls to this region are skipped with it)
@@ -666,6 +670,28 @@ class Generator:
         parts = [re.escape(p) for p in old.split()]
         return re.compile(r"\s*".join(parts)) if False else re.compile(r"\s+".join(parts))
 
+    @staticmethod
+    def _ws_regex_tolerant(old):
+        # the same token sequence up to ONE kind of small change: a comparison or boolean operator replaced by another of
+        # its class, `true`/`false` swapped, a leading `!` dropped.  Used ONLY for anchors that give a POSITION (inserts,
+        # region ends) and ONLY when the exact anchor is absent: the changed statement is then verified as it stands and
+        # fails its obligation, instead of the unit losing its anchor (exit 2).  Never used for rewrites.
+        classes = [("==", "!="), ("<", "<=", ">", ">="), ("&&", "||")]
+        parts = []
+        for p in old.split():
+            alt = None
+            for c in classes:
+                if p in c:
+                    alt = "(?:%s)" % "|".join(re.escape(x) for x in c)
+            if alt is None:
+                e = re.escape(p)
+                e = re.sub(r"(?<![A-Za-z0-9_])(?:true|false)(?![A-Za-z0-9_])", "(?:true|false)", e)
+                if p.startswith("!") and not p.startswith("!="):
+                    e = "!?" + e[len(re.escape("!")):]
+                alt = e
+            parts.append(alt)
+        return re.compile(r"\s+".join(parts))
+
     def _count_ws(self, text, old):
         return len(self._ws_regex(old).findall(text))
 
@@ -679,6 +705,10 @@ class Generator:
         where, opt, kth, ofn, anchor, ins = m.groups()
         rx = self._ws_regex(anchor)
         ms = list(rx.finditer(body))
+        if len(ms) == 0 and not opt:
+            ms = list(self._ws_regex_tolerant(anchor).finditer(body))
+            if ms:
+                rules.append("insert anchor matched up to a flipped operator or literal: %s" % anchor[:60])
         if kth and not (opt and len(ms) == 0):
             # `//@before#2/3 <<<a>>>|`: the second of exactly three occurrences of a short anchor (statements that
             # recur in a function; a longer anchor would tie the proof step to the order of the neighbouring statements)
